@@ -144,7 +144,7 @@ func run(dir string, name string, args ...string) (string, error) {
 func build(work string, race bool, yields string) (string, error) {
 	instr := filepath.Join(work, "instr")
 	if _, err := os.Stat(filepath.Join(instr, "overlay.json")); err != nil {
-		args := []string{"-repo", "/repo", "-out", instr, "-overlay-src", filepath.Join(verifDir, "overlay")}
+		args := []string{"-repo", repoDir(), "-keyroot", "/repo", "-out", instr, "-overlay-src", filepath.Join(verifDir, "overlay")}
 		if yields != "" {
 			args = append(args, "-yield", yields)
 		}
@@ -165,6 +165,15 @@ func build(work string, race bool, yields string) (string, error) {
 		return "", fmt.Errorf("go build failed: %v\n%s", err, out)
 	}
 	return bin, nil
+}
+
+// repoDir is /repo unless VERIF_REPO names another checkout (used only by background runs on a snapshot;
+// the registered commands always check /repo itself).
+func repoDir() string {
+	if d := os.Getenv("VERIF_REPO"); d != "" {
+		return d
+	}
+	return "/repo"
 }
 
 func lastJSON(out []byte) []byte {
@@ -197,9 +206,7 @@ func runTask(bin string, t *task, work string) {
 	if j.EnvOnly {
 		args = append(args, "-envonly")
 	}
-	// address-space cap: a defect that makes the code under test allocate without bound must not take the sandbox down
-	shArgs := []string{"-c", "ulimit -v 25000000 2>/dev/null; exec \"$0\" \"$@\"", bin}
-	cmd := exec.Command("sh", append(shArgs, args...)...)
+	cmd := exec.Command(bin, args...)
 	cmd.Dir = work
 	cmd.Env = append(env(), "GORACE=halt_on_error=0 log_path="+filepath.Join(work, "race"))
 	var out, errb bytes.Buffer
